@@ -39,17 +39,11 @@ Proof.
   - unfold is_installed_test, skip_key, install_skip_arg. cbn. apply String.eqb_eq. congruence.
 Qed.
 
-Lemma install_on_fresh : forall listed inst,
-  NoDup (List.map bp_name listed) -> (forall p, In p listed -> name_installed inst p = false) ->
-  install_on inst listed = inst ++ listed.
+Lemma install_on_fresh listed inst :
+  (forall p, In p listed -> name_installed inst p = false) -> install_on inst listed = inst ++ listed.
 Proof.
-  unfold install_on. induction listed as [|p l IH]; intros inst ND H; simpl; [rewrite app_nil_r; reflexivity|].
-  rewrite (H p (or_introl eq_refl)). inversion ND as [|? ? Nin ND']; subst.
-  rewrite IH; [rewrite <- app_assoc; reflexivity | exact ND' |].
-  intros q Hq. destruct (name_installed (inst ++ [p]) q) eqn:E; [|reflexivity]. exfalso.
-  apply name_installed_iff in E. destruct E as [x [Hx En]]. apply in_app_or in Hx. destruct Hx as [Hx|[<-|[]]].
-  - assert (name_installed inst q = true) by (apply name_installed_iff; exists x; auto). rewrite (H q (or_intror Hq)) in H0. discriminate.
-  - apply Nin. rewrite En. apply in_map. exact Hq.
+  intro H. unfold install_on. f_equal. induction listed as [|p l IH]; [reflexivity|]. simpl.
+  rewrite (H p (or_introl eq_refl)). simpl. f_equal. apply IH. intros q Hq. apply H. right. exact Hq.
 Qed.
 
 (* what the lock lists on top of a base image is exactly what the build from it adds, each package in the
@@ -61,11 +55,8 @@ Theorem base_lock_listed_is_installed base resolved :
 Proof.
   intros ND. split.
   - apply install_on_fresh.
-    + unfold lock_listed. clear -ND. induction resolved as [|r l IH]; simpl; [constructor|]. simpl in ND. inversion ND as [|? ? Nin ND']; subst.
-      destruct (negb (in_base base r)); [|apply IH; exact ND']. simpl. constructor; [|apply IH; exact ND'].
-      intro F. apply Nin. apply in_map_iff in F. destruct F as [x [E Hx]]. apply filter_In in Hx. rewrite <- E. apply in_map. tauto.
-    + intros p Hp. unfold lock_listed in Hp. apply filter_In in Hp. destruct Hp as [_ Hp]. apply negb_true_iff in Hp.
-      destruct (name_installed base p) eqn:E; [|reflexivity]. apply name_installed_iff in E. apply in_base_iff in E. congruence.
+    intros p Hp. unfold lock_listed in Hp. apply filter_In in Hp. destruct Hp as [_ Hp]. apply negb_true_iff in Hp.
+    destruct (name_installed base p) eqn:E; [|reflexivity]. apply name_installed_iff in E. apply in_base_iff in E. congruence.
   - intros p. unfold lock_listed. rewrite filter_In, negb_true_iff. split; intros [A B]; (split; [exact A|]).
     + intro F. apply in_base_iff in F. congruence.
     + destruct (in_base base p) eqn:E; [|reflexivity]. apply in_base_iff in E. contradiction.
